@@ -132,7 +132,8 @@ CHECKS = {
         "EZSP.write_config() runs for every protocol version 4..14 against a simulated NCP holding a configuration store; "
         "Hypothesis draws the current value of every setting (below/equal/above the default, unreadable), an override set "
         "from that version's voluptuous schema keys (in-range values, None, keys inside and outside the default list) and "
-        "per-setting rejection statuses. The oracle reads only the set frames the simulator saw: each ID at most once, "
+        "per-setting rejection statuses, optionally preceded by an earlier write_config call on the same object that raised some "
+        "values. The oracle reads only the set frames the simulator saw: each ID at most once, "
         "capacity settings (identified by name, not by the code's markers) never written below the reported value unless the "
         "caller supplied them, caller values written exactly, nothing for disabled ones, packet-buffer count last, no "
         "exception, and the same ID sequence as the all-accept twin run.",
